@@ -492,3 +492,87 @@ func GenEntries(t *rapid.T, l *Node, o TreeOpts) []interface{} {
 	}
 	return out
 }
+
+// Subsample draws a sub-tree of u: every optional node is kept with
+// probability keepPct, list entries likewise, and kept non-key leaves are
+// redrawn with probability redrawPct. Two subsamples of one universe overlap,
+// differ and nest in every way a merge has to handle.
+func Subsample(t *rapid.T, n *Node, u Tree, keepPct, redrawPct int, o TreeOpts) Tree {
+	out := Tree{}
+	for _, d := range n.DataChildren() {
+		v, ok := u[d.Name]
+		if !ok {
+			continue
+		}
+		isKey := isKeyOf(n, d.Name)
+		if !isKey && rapid.IntRange(0, 99).Draw(t, "keep?") >= keepPct {
+			continue
+		}
+		switch d.Kind {
+		case "leaf":
+			if !isKey && rapid.IntRange(0, 99).Draw(t, "redraw?") < redrawPct {
+				out[d.Name] = genLeaf(t, d, o, false)
+			} else {
+				out[d.Name] = v
+			}
+		case "leaf-list":
+			out[d.Name] = Clone(v)
+		case "container":
+			out[d.Name] = Subsample(t, d, v.(Tree), keepPct, redrawPct, o)
+		case "list":
+			var nl []interface{}
+			for _, e := range v.([]interface{}) {
+				if rapid.IntRange(0, 99).Draw(t, "keepentry?") < keepPct {
+					nl = append(nl, Subsample(t, d, e.(Tree), keepPct, redrawPct, o))
+				}
+			}
+			if nl == nil {
+				nl = []interface{}{}
+			}
+			out[d.Name] = nl
+		}
+	}
+	// a choice must not end up with two cases: keep only the first selected case's data
+	for _, ch := range n.Choices() {
+		cases := CasesWithData(ch, out)
+		if len(cases) > 1 {
+			for _, cs := range ch.Children {
+				if cs.Name != cases[0] {
+					for _, dd := range cs.DataChildren() {
+						delete(out, dd.Name)
+					}
+				}
+			}
+		}
+	}
+	return out
+}
+
+// AllPaths lists the paths of every container, list and list entry present in t.
+func AllPaths(n *Node, t Tree, prefix Path) []Path {
+	var out []Path
+	for _, d := range n.DataChildren() {
+		v, ok := t[d.Name]
+		if !ok {
+			continue
+		}
+		switch d.Kind {
+		case "container":
+			p := append(append(Path{}, prefix...), Seg{Name: d.Name})
+			out = append(out, p)
+			out = append(out, AllPaths(d, v.(Tree), p)...)
+		case "list":
+			p := append(append(Path{}, prefix...), Seg{Name: d.Name})
+			out = append(out, p)
+			if len(d.Keys) == 0 {
+				continue
+			}
+			for _, e := range v.([]interface{}) {
+				ep := append(append(Path{}, prefix...), Seg{Name: d.Name, Key: KeyOf(d, e.(Tree))})
+				out = append(out, ep)
+				out = append(out, AllPaths(d, e.(Tree), ep)...)
+			}
+		}
+	}
+	return out
+}
